@@ -3,6 +3,7 @@ package c13
 
 import (
 	"context"
+	"google.golang.org/protobuf/proto"
 
 	"fmt"
 	"math/rand"
@@ -383,6 +384,10 @@ func runCase(run sink, prun *ev.Run, i int, caseID string) {
 	case 6:
 		violate = "duplicate-terminal"
 	}
+	// an application error instead of a server error: one request of the last burst carries
+	// two operations with the same id. Only one of them can be tracked, so the client must
+	// record the error (a send error) and AwaitConverged must return it.
+	appDup := violate == "" && i%11 == 3
 	var trace []string
 	var tmu sync.Mutex
 	logf := func(f string, a ...any) {
@@ -468,11 +473,25 @@ func runCase(run sink, prun *ev.Run, i int, caseID string) {
 			default:
 			}
 			upTo := queuedSeq.Load()
-			pend, err1 := c.Pending()
-			res, err2 := c.Results()
-			if err1 != nil || err2 != nil {
-				problem("status-error", fmt.Sprintf("%v %v", err1, err2))
-				return
+			var pend []client.PendingRequest
+			var res []*client.OpResult
+			if samples.Load()%2 == 1 {
+				// the combined snapshot must be as good as the two separate calls: an operation
+				// moves from pending to results, it is never in neither
+				st, err := c.Status()
+				if err != nil {
+					problem("status-error", err.Error())
+					return
+				}
+				pend, res = st.PendingTransactions, st.Results
+			} else {
+				var err1, err2 error
+				pend, err1 = c.Pending()
+				res, err2 = c.Results()
+				if err1 != nil || err2 != nil {
+					problem("status-error", fmt.Sprintf("%v %v", err1, err2))
+					return
+				}
 			}
 			seen := map[uint64]bool{}
 			for _, p := range pend {
@@ -605,7 +624,20 @@ func runCase(run sink, prun *ev.Run, i int, caseID string) {
 				imu.Unlock()
 				req.Operation = append(req.Operation, op)
 			}
+			if appDup && b == nBursts-1 && q == nReq-1 {
+				dup := proto.Clone(req.Operation[0]).(*spb.AFTOperation)
+				req.Operation = append(req.Operation, dup)
+				logf("the last request carries operation id %d twice", dup.Id)
+			}
 			c.Q(req) // a Q that never returns is caught by the child's case watchdog
+			if appDup && b == nBursts-1 && q == nReq-1 {
+				// decided when Q returns, before the server has said anything: of the two operations
+				// with one id only one is in the pending queue, so the other must be accounted for
+				// by a recorded error - otherwise it is lost
+				if st, err := c.Status(); err == nil && len(st.SendErrs) == 0 {
+					problem("duplicate-id-in-request-not-surfaced", fmt.Sprintf("Q accepted a request carrying operation id %d twice without recording an error: one of the two operations is neither pending nor reported", req.Operation[0].Id))
+				}
+			}
 			queuedSeq.Store(uint64(total))
 			if b == nBursts-1 && q == nReq-1 {
 				srv.expectTotal.Store(int64(total))
@@ -654,7 +686,12 @@ func runCase(run sink, prun *ev.Run, i int, caseID string) {
 	sampWG.Wait()
 	st, _ := c.Status()
 	logf("final: AwaitConverged=%v pending=%d results=%d sendErrs=%d readErrs=%d", finalErr, len(st.PendingTransactions), len(st.Results), len(st.SendErrs), len(st.ReadErrs))
-	if violate != "" {
+	if appDup {
+		if ce, ok := finalErr.(*client.ClientErr); finalErr == nil || !ok || len(ce.Send)+len(ce.Recv) == 0 {
+			problem("duplicate-id-in-request-not-surfaced", fmt.Sprintf("a request carried one operation id twice (only one of the two operations can be tracked), but AwaitConverged returned %v", finalErr))
+		}
+		run.Count("requests_with_a_duplicate_operation_id", 1)
+	} else if violate != "" {
 		if srv.violated.Load() {
 			if finalErr == nil {
 				problem("protocol-violation-not-surfaced:"+violate, "the server sent a result for "+violate+" but AwaitConverged returned nil")
